@@ -109,6 +109,8 @@ func stepOracle(before *sim.Region, st operator.OpStep, later []operator.OpStep)
 	case operator.TransferLeader:
 		p := before.Peer(s.ToStore)
 		switch {
+		case p != nil && s.ToStore == leader:
+			// already the leader: nothing is transferred
 		case p == nil:
 			return "transfers-leader-to-absent-peer", fmt.Sprintf("leader transfer to store %d which holds no peer", s.ToStore)
 		case p.Role == metapb.PeerRole_Learner:
